@@ -73,6 +73,17 @@ func (p *Pair) Impl(op Op, timeout time.Duration) Result {
 // `need <lines>`; the real Join result is computed here (the rassemble-go version /repo's go.mod
 // resolves), stored in the driver's table (`join.add`) and the op is run again.
 func (p *Pair) Model(op Op, timeout time.Duration) Result {
+	if op.Name == "gen.runYaml" && len(op.Args) >= 8 {
+		// the model takes the six patterns as the loader delivers them: an absent, empty or unreadable file means none
+		args := append([][]byte{}, op.Args[1:]...)
+		switch string(op.Args[0]) {
+		case "absent", "empty-file", "malformed":
+			for i := 0; i < 6; i++ {
+				args[i] = []byte{}
+			}
+		}
+		op = Op{"gen.run", args}
+	}
 	for iter := 0; iter < 4000; iter++ {
 		line, err := p.model.call(op.Line(), timeout)
 		if err != nil {
